@@ -80,9 +80,14 @@ class ComputeTypeVisitor(Visitor.DefaultVisitor):
         ctx.pop()
 
     def v_IfStatement(self, stmt, ctx):
-        ctx.append(types.Scope(ctx[-1]))
-        stmt.AcceptVisitor(self, ctx)
-        ctx.pop()
+        # The condition and both branches are separate scopes
+        branches = [stmt.GetCondition(), stmt.GetTruePath()]
+        if stmt.HasElsePath():
+            branches.append(stmt.GetElsePath())
+        for branch in branches:
+            ctx.append(types.Scope(ctx[-1]))
+            self.v_Visit(branch, ctx)
+            ctx.pop()
 
     def _GetClassScopeForMemberAccess(self, expr, scope):
         return scope.GetFieldType(expr.GetMemberAccess().GetParent().GetName())
